@@ -66,8 +66,7 @@ def check(log, quiescent):
     for r in log:
         tag = r[0]
         if tag == 'T':
-            _, g, lb, kind, now, delay, prio, st = r
-            due = now + delay
+            _, g, lb, kind, now, delay, prio, st, due = r
             cls = 0 if kind in URGENT_KINDS else 1
             key = (due, cls, g)
             heapq.heappush(pend, (key, lb))
